@@ -102,7 +102,7 @@ def run(R):
     sz = S.find("samplerz::sampler_z")
     gp = S.find("math::gen_poly")
     # ---- (1) constants
-    tabs = [array_const(prog, c, 16) for t, c in consts_in(prog, base, lambda t: t.tag == "Array" and "u128" in t.s)]
+    tabs = [array_const(prog, c, 16) for t, c in consts_in(prog, base, lambda t: t.tag in ("Array", "Ref") and "u128; 18" in t.s)]
     tabs = [t for t in tabs if t and len(t) == 18]
     R.check(len(tabs) >= 1 and all(t == RCDT for t in tabs), "C09-const", "base_sampler RCDT", "the 18 table entries equal the specification's Table 3.1",
             f"table differs from the specification at indices {[i for i in range(18) if tabs and tabs[0][i] != RCDT[i]]}" if tabs else "no [u128; 18] constant found", key="rcdt")
@@ -128,16 +128,37 @@ def run(R):
     R.check(len(cand) >= 1, "C09-const", "gen_poly sigma*", f"sigma* = {cand[0] if cand else None} equals 1.17*sqrt(q/8192) = {star} to 1e-9",
             f"float constants of gen_poly {sorted(set(fg))} contain nothing within 1e-9 of {star}", key="sigmastar")
     # ---- (2) base_sampler
+    # every comparison between the 72-bit draw u and a constant, whatever the idiom (filter().count(), a counting loop,
+    # take_while ..): normalised to the threshold t of its true-set {u : u < t}
     preds = []
+    from fv.mir import kind_of as _kind_of
 
     def obs(ev, **kw):
-        if ev == "filter_pred" and not ctx.quiet and kw["frame"].inst is base:
+        if ev != "assign" or ctx.quiet or not kw["frame"].inst.name.startswith(base.name):
+            return
+        fr = kw["frame"]
+        try:
+            stmt = fr.body.blocks[kw["bb"]]["statements"][kw["si"]]
+            k_, v_ = _kind_of(stmt["kind"])
+            rk, rv = _kind_of(v_[1])
+            if rk != "BinaryOp" or rv[0] not in ("Lt", "Le", "Gt", "Ge", "Eq", "Ne"):
+                return
             stt = kw["st"]
-            r = kw["result"]
-            p = stt.prov.get(r.vid)
-            item = kw["item"]
-            preds.append((p, stt.const(item) if type(item) is I else None, stt))
+            x, y = S.E.operand(stt, fr, rv[1]), S.E.operand(stt, fr, rv[2])
+            if type(x) is not I or type(y) is not I:
+                return
+            ix, iy = stt.itv[x.vid], stt.itv[y.vid]
+            wide = lambda r: r[1] - r[0] >= (1 << 63)
+            if wide(ix) and iy[0] == iy[1]:
+                preds.append((rv[0], "u-left", iy[0], ix))
+            elif wide(iy) and ix[0] == ix[1]:
+                preds.append((rv[0], "u-right", ix[0], iy))
+            elif wide(ix) or wide(iy):
+                preds.append((rv[0], "non-constant", None, ix if wide(ix) else iy))
+        except Exception:
+            pass
     ctx.observers.append(obs)
+    ctx.hooks["unroll"] = lambda fr, h: 20 if fr.inst.name.startswith(base.name) else 0
 
     def run_base(head_rng):
         del preds[:]
@@ -150,35 +171,40 @@ def run(R):
     outs, obls = run_base(lambda i: (0, 255))
     record_obligations(R, "C09-asserts", obls, site_prefix="[base_sampler] ")
     ok = False
-    why = f"{len(preds)} comparisons observed"
-    if len(preds) == 18 and outs:
-        entries = []
-        good = True
-        for p, itemv, stt in preds:
-            if not p or p[0] != "cmp" or p[2] != "Lt":
-                good = False
-                why = f"a table comparison is {p[2] if p else None}, expected strict `<`"
-                break
-            a, b_ = p[1]
-            if stt.itv.get(b_, (None, None))[0] != itemv or stt.itv.get(b_, (0, 1))[0] != stt.itv.get(b_, (0, 1))[1]:
-                good = False
-                why = "the random value is not on the left of `<`"
-                break
-            if stt.itv[a] != (0, (1 << 72) - 1):
-                good = False
-                why = f"u ranges over {stt.itv[a]}, expected [0, 2^72)"
-                break
-            entries.append(itemv)
-        ok = good and sorted(entries, reverse=True) == RCDT
-        if good and not ok:
-            why = "the compared entries are not the 18 table values"
+    why = f"{len(preds)} comparisons of the draw with a constant observed"
+    thr = []
+    good = bool(preds) and bool(outs)
+    for op, side, c, urng in preds:
+        if side == "non-constant" or op in ("Eq", "Ne"):
+            good, why = False, f"the draw is compared ({op}) with something that is not one table constant"
+            break
+        if urng != (0, (1 << 72) - 1):
+            good, why = False, f"u ranges over {urng}, expected [0, 2^72)"
+            break
+        # true-set as a threshold: {u : u < t}  (u < c -> c;  u <= c -> c+1;  c > u -> c;  c >= u -> c+1); the complementary forms count the same set negated
+        if (op, side) in (("Lt", "u-left"), ("Gt", "u-right"), ("Ge", "u-left"), ("Le", "u-right")):
+            thr.append(c)
+        else:
+            thr.append(c + 1)
+    if good:
+        ok = sorted(set(thr), reverse=True) == RCDT and len(thr) >= 18
+        if not ok:
+            why = f"the draw is compared against thresholds that are not the 18 table values (e.g. {sorted(set(thr) - set(RCDT))[:2]}): the counted set is not {{i : u < RCDT[i]}}"
         r, rst = outs[0]
-        ok = ok and type(r) is I and rst.itv[r.vid] == (0, 18)
-    R.check(ok, "C09-base", "base_sampler", "result = #{i : u < RCDT[i]} over all 18 entries, u in [0, 2^72), result in [0,18]", why, key="base")
+        rngs = [s_.itv[r_.vid] for r_, s_ in outs if type(r_) is I]
+        if ok and not (rngs and min(x[0] for x in rngs) >= 0 and max(x[1] for x in rngs) <= 18):
+            ok, why = False, f"result range {rngs}"
+    R.check(ok, "C09-base", "base_sampler", "the draw u in [0, 2^72) is compared with each of the 18 table values as `u < RCDT[i]` (in any syntactic form) and the result lies in [0,18]", why, key="base")
+    # the two extreme partitions pin the counting direction: u = 0 is below every entry, u = 2^72 - 1 above every entry
+    for nm, rng, want in (("all-zero draw", (0, 0), 18), ("all-ones draw", (255, 255), 0)):
+        o2, _ = run_base(lambda i, rng=rng: rng)
+        got = sorted({s_.itv[r_.vid] for r_, s_ in o2 if type(r_) is I})
+        R.check(got == [(want, want)], "C09-base", f"base_sampler, {nm}", f"returns {want} (the number of table entries above the draw)", f"returns {got}, expected {want}", key=f"base-extreme|{want}")
     outs, _ = run_base(lambda i: (0, 0) if i == 0 else (0, 255))
-    umax = max((stt.itv[p[1][0]][1] for p, _, stt in preds if p and p[0] == "cmp"), default=None)
+    umax = max((p[3][1] for p in preds), default=None)
     R.check(umax == (1 << 64) - 1, "C09-base", "base_sampler byte order", "with the first byte zero u < 2^64: the 9 bytes are read big-endian, zero-extended on the left",
             f"with the first byte zero u can reach {umax}", key="base-endian")
+    ctx.hooks.pop("unroll", None)
     ctx.observers.remove(obs)
     # ---- approx_exp on its domain
     st = St()
@@ -265,17 +291,61 @@ def run(R):
     record_obligations(R, "C09-asserts", S.obligations_since(n0), assumed2, site_prefix="[sampler_z, any mu, sigma' in [sigma_min, 1.8205]] ")
     if calls:
         x, ccs, _b = calls[-1]
-        want = ("fMul", "sigma_min", ("fDiv", 1.0, "sigma"))
-        want2 = ("fMul", ("fDiv", 1.0, "sigma"), "sigma_min")
-        R.check(type(ccs) is Fl and ccs.tag in (want, want2), "C09-wiring", "sampler_z -> ber_exp (ccs)", "ccs = sigma_min * (1 / sigma)", f"ccs is computed as {ccs.tag if type(ccs) is Fl else ccs}", key="ccs")
-        leaves = tag_leaves(x.tag if type(x) is Fl else None)
-        inv_ok = any(isinstance(l, float) and f64_ulp_diff(l, inv) <= 1 for l in leaves)
-        need = {"mu", "sigma"}
-        has_floor = "floor" in str(x.tag)
-        half = any(isinstance(l, float) and l == 0.5 for l in leaves)
-        int_parts = [l for l in leaves if isinstance(l, tuple)]
-        R.check(inv_ok and need <= {l for l in leaves if isinstance(l, str)} and has_floor and half and "sigma_min" not in leaves, "C09-wiring", "sampler_z -> ber_exp (x)",
-                "x is built from (z - (mu - floor(mu)))^2 * 0.5/sigma^2 and z0^2 * 1/(2 sigma_max^2)", f"x's ingredients: {sorted(map(str, leaves))}", key="x")
+        # identity tests on the extracted expressions (any algebraically equivalent way of writing them is accepted)
+        import itertools as _it
+        import random as _rnd
+        from .symalg import ev as _ev, NotSymbolic as _NS, close as _close
+
+        def floor_ext(tag, env, memo):
+            # `floor` nodes are evaluated too
+            if isinstance(tag, tuple) and tag[0] == "floor":
+                return float(math.floor(floor_ext(tag[1], env, memo)))
+            if isinstance(tag, tuple) and tag[0] in ("fAdd", "fSub", "fMul", "fDiv"):
+                x_, y_ = floor_ext(tag[1], env, memo), floor_ext(tag[2], env, memo)
+                return {"fAdd": x_ + y_, "fSub": x_ - y_, "fMul": x_ * y_, "fDiv": (x_ / y_) if y_ != 0 else float("nan")}[tag[0]]
+            if isinstance(tag, tuple) and tag[0] == "neg":
+                return -floor_ext(tag[1], env, memo)
+            return _ev(tag, env, memo)
+        okc, whyc = type(ccs) is Fl and ccs.tag is not None, f"ccs is {ccs}"
+        if okc:
+            try:
+                for t_ in range(5):
+                    rr = _rnd.Random(900 + t_)
+                    vals = {"sigma": rr.uniform(1.2, 1.9), "sigma_min": rr.uniform(1.1, 1.3), "mu": rr.uniform(-50, 50)}
+                    got = floor_ext(ccs.tag, lambda l: vals.get(l) if isinstance(l, str) else None, {})
+                    if not _close(got, vals["sigma_min"] / vals["sigma"]):
+                        okc, whyc = False, f"ccs is computed as {ccs.tag}: {got} instead of sigma_min / sigma = {vals['sigma_min'] / vals['sigma']}"
+            except _NS as e_:
+                okc, whyc = False, f"ccs has no symbolic form ({e_})"
+        R.check(okc, "C09-wiring", "sampler_z -> ber_exp (ccs)", "ccs = sigma_min / sigma (identity test)", whyc, key="ccs")
+        from .symalg import leaves as _leaves
+        leaves = _leaves(x.tag if type(x) is Fl else None)
+        ints = sorted({l for l in leaves if isinstance(l, tuple) and l[0] == "int"}, key=str)
+        okx, whyx = type(x) is Fl and x.tag is not None and len(ints) == 2, f"x's ingredients: {sorted(map(str, leaves))}"
+        if okx:
+            okx = False
+            for zleaf, z0sq in _it.permutations(ints):
+                good = True
+                try:
+                    for t_ in range(5):
+                        rr = _rnd.Random(950 + t_)
+                        vals = {"sigma": rr.uniform(1.2, 1.9), "sigma_min": rr.uniform(1.1, 1.3), "mu": rr.uniform(-50, 50)}
+                        zv, wv = float(rr.randint(-12, 12)), float(rr.randint(0, 300))
+                        env = lambda l: (vals.get(l) if isinstance(l, str) else (zv if l == zleaf else wv if l == z0sq else None))
+                        got = floor_ext(x.tag, env, {})
+                        r_ = vals["mu"] - math.floor(vals["mu"])
+                        want_ = (zv - r_) ** 2 / (2 * vals["sigma"] ** 2) - wv * inv
+                        if not _close(got, want_, 1e-9):
+                            good = False
+                            break
+                except _NS:
+                    good = False
+                if good:
+                    okx = True
+                    break
+            if not okx:
+                whyx = "x is not (z - (mu - floor(mu)))^2 / (2 sigma^2) - z0^2 / (2 sigma_max^2) (identity test with z and z0^2 as free integers); ingredients: " + str(sorted(map(str, leaves)))[:200]
+        R.check(okx, "C09-wiring", "sampler_z -> ber_exp (x)", "x = (z - (mu - floor(mu)))^2 / (2 sigma^2) - z0^2 / (2 sigma_max^2) (identity test)", whyx, key="x")
     else:
         R.violation("C09-wiring", "sampler_z", "no call to ber_exp observed", key="ccs")
     retst = [dd for dd in draws if dd[0] == "ret"]
